@@ -14,6 +14,9 @@ func main() {
 		fmt.Fprintln(os.Stderr, "usage: check <property> <quick|thorough>")
 		os.Exit(3)
 	}
+	if os.Args[1] == "replay" {
+		os.Exit(replay(os.Args[2]))
+	}
 	prop, tier := os.Args[1], os.Args[2]
 	if r := os.Getenv("VERIF_ROOT"); r != "" {
 		ev.Root = r
